@@ -158,3 +158,10 @@ Theorem C13_source_suffixes : forall (B : backend) (u : url),
   gen_raw_suffixes u = Ok (raw_suffixes u) /\ gen_suffixes B u = Ok (suffixes B u).
 Proof. exact gen_suffixes_ok. Qed.
 Print Assumptions C13_source_suffixes.
+
+(** ... and the two public entry points in front of it: joinpath(other..., encoded=...) and "/" *)
+From Yarl Require Import Proofs.GenSmallProofs.
+Theorem C13_source_joinpath_truediv : forall (B : backend) (u : url) (paths : list str) (nm : str) (encoded : bool),
+  gen_joinpath B u paths encoded = joinpath B u paths encoded /\ gen_truediv B u nm = truediv B u nm.
+Proof. intros B u paths nm encoded. split; [apply gen_joinpath_ok|apply gen_truediv_ok]. Qed.
+Print Assumptions C13_source_joinpath_truediv.
